@@ -275,7 +275,7 @@ def run(ck: Check):
         "(statistical_method(**statistical_kwargs)) both compared with the O(nm) index-pair double sum of the statement (math.fsum, no NumPy), rtol 1e-9 + atol 1e-12; "
         "refit with and without reset must use the new reference; non-trivial = some chunk size is ragged (divides neither n nor m evenly)"
     )
-    n_batch = 70 if not thorough else 500
+    n_batch = 90 if not thorough else 600
     corr = []  # (X, Y, sigma, chunks, impl results)
     for _ in range(n_batch):
         d, n, m, kind, X, Y, sigma = gen_pair(rng)
@@ -383,7 +383,7 @@ def run(ck: Check):
         "double sum between the reference in force and the last window_size values (monitor, w >= 2), and with a fresh batch detector on that window; "
         "w = 1 is outside n,m >= 2 (both sides nan) and only checked for streaming = batch; non-trivial = the ring wraps after a reset or refit"
     )
-    n_stream = 45 if not thorough else 350
+    n_stream = 60 if not thorough else 400
     sc = []
     for _ in range(n_stream):
         w = rng.choice([1, 2, 2, 3, 3, 4, 5, 6, 7, 8, 9, 10])
